@@ -465,8 +465,292 @@ func (c *vT) checkC18() {
 	vObserve("nodecnt", s.NodeCnt)
 }
 
+// encOf: the encoded bytes of the value supplied for key i (real encoder; decided by C15).
+func (c *vT) encOf(i int) []byte {
+	switch c.enc {
+	case vEncStr:
+		return c.encoder().Encode(c.str[i])
+	case vEncI64:
+		return c.encoder().Encode(c.i64[i])
+	case vEncI32:
+		return c.encoder().Encode(c.i32[i])
+	case vEncI16:
+		return c.encoder().Encode(c.i16[i])
+	case vEncI8:
+		return c.encoder().Encode(c.i8[i])
+	case vEncU16:
+		return c.encoder().Encode(c.u16[i])
+	}
+	return nil
+}
+
+// C04: scans yield exactly the retained entries in range, in order, once.
+// api 0: NewIter; 1: ScanFrom with the callback returning false after `stop` calls;
+// 2: ScanFromTo.
+func (c *vT) checkC04(api int, ls, le int, stop int) {
+	start := vString("s", ls)
+	inclS := vBool("inclS")
+	withValue := vBool("withValue")
+	end := ""
+	inclE := true
+	if api == 2 {
+		end = vString("e", le)
+		inclE = vBool("inclE")
+	}
+	// in-range flags and ranks (fork-free)
+	n := c.n
+	inR := make([]bool, n)
+	rank := make([]int, n)
+	total := 0
+	encs := make([][]byte, n)
+	for j := 0; j < n; j++ {
+		geS := vOr(vStrLt(start, c.keys[j]), vAnd(inclS, vStrEq(start, c.keys[j])))
+		r := vAnd(c.ret[j], geS)
+		if api == 2 {
+			leE := vOr(vStrLt(c.keys[j], end), vAnd(inclE, vStrEq(end, c.keys[j])))
+			r = vAnd(r, leE)
+		}
+		inR[j] = r
+		rank[j] = total
+		total += vB2I(r)
+		encs[j] = c.encOf(j)
+	}
+	checkYield := func(t int, k, v []byte) {
+		ks := string(k)
+		ok := false
+		for j := 0; j < n; j++ {
+			hit := vAnd(inR[j], vAnd(rank[j] == t, vStrEq(ks, c.keys[j])))
+			if c.enc == vEncNil {
+				hit = vAnd(hit, v == nil)
+			} else {
+				hit = vAnd(hit, vOr(vAnd(vNot(withValue), v == nil), vAnd(withValue, vAnd(v != nil, vBytesEq(v, encs[j])))))
+			}
+			ok = vOr(ok, hit)
+		}
+		vAssert(ok, "C04.yield")
+	}
+	count := 0
+	switch api {
+	case 0:
+		nxt := c.st.NewIter(start, inclS, withValue)
+		for t := 0; t < n+1; t++ {
+			k, v := nxt()
+			if k == nil {
+				vAssert(v == nil, "C04.exhausted.value")
+				break
+			}
+			checkYield(count, k, v)
+			count++
+		}
+		vAssert(count <= n, "C04.no-extra")
+		vAssert(count == total, "C04.count")
+		// exhaustion is reported on every later call
+		k2, v2 := nxt()
+		k3, v3 := nxt()
+		vAssert(k2 == nil && v2 == nil && k3 == nil && v3 == nil, "C04.exhausted")
+	case 1:
+		c.st.ScanFrom(start, inclS, withValue, func(k, v []byte) bool {
+			checkYield(count, k, v)
+			count++
+			return count <= stop
+		})
+		want := total
+		lim := stop + 1
+		vAssert(count == vIte(want < lim, want, lim), "C04.count")
+	case 2:
+		c.st.ScanFromTo(start, inclS, end, inclE, withValue, func(k, v []byte) bool {
+			checkYield(count, k, v)
+			count++
+			return true
+		})
+		vAssert(count == total, "C04.count")
+	}
+	vObserve("count", count)
+}
+
+// C04 refusal clause: a trie that does not store complete keys must refuse (panic)
+// or still yield exactly the right sequence; yielding a wrong key is the violation.
+func (c *vT) checkC04Refuse(ls int) {
+	start := vString("s", ls)
+	n := c.n
+	inR := make([]bool, n)
+	rank := make([]int, n)
+	total := 0
+	for j := 0; j < n; j++ {
+		r := vAnd(c.ret[j], vNot(vStrLt(c.keys[j], start)))
+		inR[j] = r
+		rank[j] = total
+		total += vB2I(r)
+	}
+	count := 0
+	good := true
+	panicked := vCatch(func() {
+		nxt := c.st.NewIter(start, true, false)
+		for t := 0; t < n+1; t++ {
+			k, _ := nxt()
+			if k == nil {
+				break
+			}
+			ks := string(k)
+			ok := false
+			for j := 0; j < n; j++ {
+				ok = vOr(ok, vAnd(inR[j], vAnd(rank[j] == count, vStrEq(ks, c.keys[j]))))
+			}
+			good = vAnd(good, ok)
+			count++
+		}
+	})
+	if !panicked {
+		vAssert(vAnd(good, count == total), "C04.refuse-or-correct")
+	}
+	vObserve("panicked", panicked)
+}
+
+// C13: storing more key information only removes false positives.
+// Builds the four information levels for the same keys/values and dedup flag.
+func (c *vT) checkC13(q string) {
+	dedupBit := 0
+	if vOptDedup(c.optc) {
+		dedupBit = 1
+	}
+	// information levels: none, inner, leaf, complete
+	lv := []int{dedupBit, dedupBit | 2, dedupBit | 4, dedupBit | 8}
+	sts := make([]*SlimTrie, 4)
+	for i, o := range lv {
+		st, err := NewSlimTrie(c.encoder(), c.keys, c.values(), vOptCase(o))
+		vAssert(err == nil, "build-ok")
+		if err != nil {
+			vAssume(false)
+		}
+		sts[i] = st
+	}
+	found := make([]bool, 4)
+	vals := make([]interface{}, 4)
+	for i := range sts {
+		vals[i], found[i] = sts[i].Get(q)
+	}
+	// order by stored information: none < inner < complete, none < leaf < complete
+	pairs := [][2]int{{1, 0}, {2, 0}, {3, 1}, {3, 2}, {3, 0}}
+	for _, p := range pairs {
+		more, less := p[0], p[1]
+		if found[more] {
+			vAssert(found[less], "C13.monotone")
+			if found[less] && c.enc != vEncNil {
+				vAssert(c.sameIface(vals[more], vals[less]), "C13.same-value")
+			}
+		}
+	}
+	o := c.oracle(q)
+	vAssert(found[3] == o.has, "C13.complete-exact")
+	// every mode gives identical answers for retained keys
+	okR := true
+	for m := 0; m < 4; m++ {
+		if !found[m] {
+			okR = vAnd(okR, vNot(o.has))
+		} else {
+			for j := 0; j < c.n; j++ {
+				okR = vAnd(okR, vImplies(o.eq[j], c.valEq(vals[m], j)))
+			}
+		}
+	}
+	vAssert(okR, "C13.retained-equal")
+}
+
+// C19: String() renders every node once; leaf lines carry the retained values in key order.
+// Values must be concrete (formatting is evaluated natively).
+func (c *vT) checkC19() {
+	var out string
+	panicked := vCatch(func() { out = c.st.String() })
+	vAssert(!panicked, "C19.no-panic")
+	if panicked {
+		return
+	}
+	s := c.st.Stat()
+	lines := 0
+	if len(out) > 0 {
+		lines = 1
+		for i := 0; i < len(out); i++ {
+			if out[i] == '\n' {
+				lines++
+			}
+		}
+	}
+	vAssert(int32(lines) == s.NodeCnt, "C19.line-per-node")
+	// leaf lines: "...=<value>" at the end of a line
+	var got []int
+	i := 0
+	for i < len(out) {
+		j := i
+		for j < len(out) && out[j] != '\n' {
+			j++
+		}
+		line := out[i:j]
+		k := len(line) - 1
+		for k >= 0 && line[k] != '=' {
+			k--
+		}
+		if k >= 0 && k+1 < len(line) {
+			num, ok, neg := 0, true, false
+			for x := k + 1; x < len(line); x++ {
+				ch := line[x]
+				if ch == '-' && x == k+1 {
+					neg = true
+				} else if ch >= '0' && ch <= '9' {
+					num = num*10 + int(ch-'0')
+				} else {
+					ok = false
+				}
+			}
+			if ok {
+				if neg {
+					num = -num
+				}
+				got = append(got, num)
+			}
+		}
+		i = j + 1
+	}
+	if c.enc != vEncNil && c.enc != vEncStr {
+		var want []int
+		for j := 0; j < c.n; j++ {
+			if c.ret[j] {
+				want = append(want, c.intVal(j))
+			}
+		}
+		okL := len(got) == len(want)
+		for j := 0; okL && j < len(got); j++ {
+			okL = got[j] == want[j]
+		}
+		vAssert(okL, "C19.leaf-order")
+	}
+	vObserve("lines", lines)
+}
+
+func (c *vT) intVal(j int) int {
+	switch c.enc {
+	case vEncI64:
+		return int(c.i64[j])
+	case vEncI32:
+		return int(c.i32[j])
+	case vEncI16:
+		return int(c.i16[j])
+	case vEncI8:
+		return int(c.i8[j])
+	}
+	return int(c.u16[j])
+}
+
 func (c *vT) run(check int, lq int) {
 	switch check {
+	case 4:
+		c.checkC04(vParam("api"), lq, vParam("le"), vParam("stop"))
+	case 41:
+		c.checkC04Refuse(lq)
+	case 13:
+		q := vString("q", lq)
+		c.checkC13(q)
+	case 19:
+		c.checkC19()
 	case 1:
 		c.checkC01()
 	case 2:
@@ -499,7 +783,21 @@ func H_l2_api() {
 	lq := vParam("lq")
 	lens := vLens(vParam("lens"), c.n, L)
 	c.keys = vSymKeys(lens, true)
-	c.symValues()
+	if vParamDef("alpha", 0) == 1 {
+		// restricted alphabet (nibble-diverse: 0x00 0x01 0x10 0x7f 0x80 0xff); the solver
+		// still decides every assignment over it
+		for _, k := range c.keys {
+			for i := 0; i < len(k); i++ {
+				b := k[i]
+				vAssume(vOr(vOr(b == 0x00, b == 0x01), vOr(vOr(b == 0x10, b == 0x7f), vOr(b == 0x80, b == 0xff))))
+			}
+		}
+	}
+	if cv := vParam("cv"); cv >= 0 {
+		vConcreteValues(c, cv)
+	} else {
+		c.symValues()
+	}
 	c.build()
 	c.run(check, lq)
 	vReach("end")
